@@ -35,6 +35,17 @@ theorem C18_star_aggregate_counterexample :
         from_ := some (.table ⟨[116], none⟩) } = .panic "aggregateRows: Vals[colIdx]" :=
   star_aggregate_panics
 
+/-- likewise for the grouping path without an aggregate (`SELECT a FROM t GROUP BY a` groups): a
+select list that starts with `*` and goes on (which the parser never builds) with a GROUP BY on a
+later column would index past the row.  With a list the parser can build the path is covered by
+`C18_no_panic_partial`: the projected rows have one value per select-list element. -/
+theorem C18_star_group_by_counterexample :
+    evaluateSelect (fun _ => some ⟨[[105]], [[.int 1]]⟩)
+      { list := [⟨.star, []⟩, ⟨.expr (.val (.col ⟨[], [105]⟩)), []⟩],
+        from_ := some (.table ⟨[116], none⟩),
+        groupBy := [⟨[], [105]⟩] } = .panic "aggregateRows: Vals[colIdx]" :=
+  star_group_by_panics
+
 end Mkdb.Exec
 
 namespace Mkdb.Store
